@@ -26,5 +26,6 @@ CONSTANTS
   PostMayFail = TRUE
   StopHooksMayFail = FALSE
   DrainOnClose = FALSE
+  ReportBeforeRelease = FALSE
 SPECIFICATION Spec
-INVARIANTS TypeOK SerialFifo Conservation HandlingOnlyWhileRunning HookOrder CallSound RegistrySound SupervisionSound GroupExactlyOne GroupLockSound RespawnNeverCollides
+INVARIANTS TypeOK SerialFifo Conservation HandlingOnlyWhileRunning HookOrder CallSound RegistrySound FailedStartFreesName SupervisionSound GroupExactlyOne GroupLockSound GroupTriesEachOnce RespawnNeverCollides
